@@ -642,6 +642,8 @@ def default_inline(fi: FunctionInfo, depth: int) -> bool:
         return False
     if fi.name in OPAQUE_METHODS and fi.cls is not None and any(b.name == 'HplAstObject' for b in fi.cls.mro()):
         return False
+    if any((isinstance(d, ast.Name) and d.id == 'singledispatch') or (isinstance(d, ast.Attribute) and d.attr == 'singledispatch') for d in fi.node.decorator_list):
+        return False    # a dispatcher is all its registered implementations, not the few lines of its default
     nstmt = 0
     nif = 0
     for n in ast.walk(fi.node):
